@@ -9,7 +9,8 @@
 //!   sort_f3      a BOOLEAN key (C08-F3); neutraliser = the boolean keys dropped
 //!   join_inner   INNER equi-join on int / double / string keys      join_outer  LEFT / RIGHT / FULL (spill path: explicit error)
 //!   join_f5      INNER join on a DATE / BOOLEAN key (C08-F5)
-//!   agg          GROUP BY one or two keys with COUNT / SUM / MIN / MAX
+//!   agg          GROUP BY one or two NULL-free keys with COUNT / SUM / MIN / MAX
+//!   agg_nullkeys the same over keys holding NULLs (C08-F6 = the GROUP BY NULL-key defects C21-F2/F4 seen through the path switch); neutraliser = WHERE keys IS NOT NULL
 use crate::common::*;
 use crate::fams::fam_sql::sqlgen::catalog::{gen_catalog, CatOpts, Catalog, TableSpec};
 use crate::fams::fam_sql::sqlgen::exec::{run_many, ExecCfg};
@@ -108,12 +109,21 @@ fn join_stmt(r: &mut Rng, cat: &Catalog, stratum: &'static str) -> Option<Stmt> 
     Some(Stmt { sql, plan, stratum, kind: "join", neutral: None })
 }
 
-fn agg_stmt(r: &mut Rng, t: &TableSpec) -> Option<Stmt> {
+fn agg_stmt(r: &mut Rng, t: &TableSpec, nullkeys: bool) -> Option<Stmt> {
     let keys_pool = cols_of(t, |_| true);
     if keys_pool.is_empty() { return None; }
     let nk = 1 + r.below(2) as usize;
-    let mut pool = keys_pool.clone(); r.shuffle(&mut pool);
-    let keys: Vec<usize> = pool.into_iter().take(nk).collect();
+    // clean stratum: key columns without a NULL (NULL group keys hit the engine's known GROUP BY defects, C21-F2/F4, whose effect
+    // depends on which aggregation path the memory limit selects — stratum agg_nullkeys, finding C08-F6)
+    let mut pool: Vec<usize> = keys_pool.iter().cloned().filter(|&c| nullkeys || !has_null(t, c)).collect();
+    if pool.is_empty() { return None; }
+    r.shuffle(&mut pool);
+    let mut keys: Vec<usize> = pool.into_iter().take(nk).collect();
+    if nullkeys && !keys.iter().any(|&c| has_null(t, c)) {
+        let nullable: Vec<usize> = keys_pool.iter().cloned().filter(|&c| has_null(t, c)).collect();
+        if nullable.is_empty() { return None; }
+        keys[0] = *r.pick(&nullable); keys.dedup();
+    }
     let nums = cols_of(t, |c| matches!(c, ColTy::I64 | ColTy::I32 | ColTy::F64));
     let mut sel: Vec<String> = keys.iter().map(|&c| t.cols[c].name.clone()).collect();
     let mut aggs: Vec<Value> = vec![json!({"fn": "count_star"})];
@@ -128,9 +138,18 @@ fn agg_stmt(r: &mut Rng, t: &TableSpec) -> Option<Stmt> {
         }
     }
     let sel_aliased: Vec<String> = sel.iter().enumerate().map(|(k, s)| format!("{} AS q{}", s, k)).collect();
-    let sql = format!("SELECT {} FROM {} GROUP BY {}", sel_aliased.join(", "), t.name, keys.iter().map(|&c| t.cols[c].name.clone()).collect::<Vec<_>>().join(", "));
-    let plan = json!({"agg": {"keys": keys.iter().map(|&c| json!({"col": c})).collect::<Vec<_>>(), "aggs": aggs, "q": {"scan": 0}}});
-    Some(Stmt { sql, plan, stratum: "agg", kind: "agg", neutral: None })
+    let group = keys.iter().map(|&c| t.cols[c].name.clone()).collect::<Vec<_>>().join(", ");
+    let sql = format!("SELECT {} FROM {} GROUP BY {}", sel_aliased.join(", "), t.name, group);
+    let keyj: Vec<Value> = keys.iter().map(|&c| json!({"col": c})).collect();
+    let plan = json!({"agg": {"keys": keyj, "aggs": aggs, "q": {"scan": 0}}});
+    let neutral = if nullkeys {
+        let cond_sql = keys.iter().map(|&c| format!("{} IS NOT NULL", t.cols[c].name)).collect::<Vec<_>>().join(" AND ");
+        let mut cond = json!({"un": ["isnotnull", {"col": keys[0]}]});
+        for &c in keys.iter().skip(1) { cond = json!({"bin": ["and", cond, {"un": ["isnotnull", {"col": c}]}]}); }
+        Some((format!("SELECT {} FROM {} WHERE {} GROUP BY {}", sel_aliased.join(", "), t.name, cond_sql, group),
+              json!({"agg": {"keys": keyj, "aggs": aggs, "q": {"filter": {"p": cond, "q": {"scan": 0}}}}})))
+    } else { None };
+    Some(Stmt { sql, plan, stratum: if nullkeys { "agg_nullkeys" } else { "agg" }, kind: "agg", neutral })
 }
 
 fn make_case(cat: &Catalog, s: &Stmt, cfgs: &[ExecCfg]) -> Value {
@@ -160,7 +179,7 @@ pub fn main(o: &Opts) {
     copts.max_tables = 2; copts.max_cols = 4; copts.max_batches = 14;
     copts.sizes = vec!["small".into(), "mid".into(), "mid".into()];
     copts.shared_names = false;
-    let strata = ["sort_clean", "sort_offset", "sort_f1", "sort_f2", "sort_f3", "sort_clean", "join_inner", "join_inner", "join_outer", "join_f5", "agg", "agg"];
+    let strata = ["sort_clean", "sort_offset", "sort_f1", "sort_f2", "sort_f3", "sort_clean", "join_inner", "join_inner", "join_outer", "join_f5", "agg", "agg", "agg_nullkeys"];
     let mut cat = gen_catalog(&mut r, &copts);
     let (mut n, mut attempts) = (0usize, 0usize);
     while n < o.cases && attempts < o.cases * 6 + 20 {
@@ -170,7 +189,7 @@ pub fn main(o: &Opts) {
         let stmt = match stratum {
             s if s.starts_with("sort") => sort_stmt(&mut r, &cat.tables[0], s),
             s if s.starts_with("join") => join_stmt(&mut r, &cat, s),
-            _ => agg_stmt(&mut r, &cat.tables[0]),
+            s => agg_stmt(&mut r, &cat.tables[0], s == "agg_nullkeys"),
         };
         let Some(stmt) = stmt else { continue };
         let bytes = match stmt.kind { "join" => table_bytes(&cat.tables[0]).min(table_bytes(&cat.tables[1])), _ => table_bytes(&cat.tables[0]) };
